@@ -223,19 +223,19 @@ Definition arith (op : binop) (a c : value) : outcome value :=
       | _, _ =>
           if is_str a || is_str c then
             s1 <- value_string a ;; s2 <- value_string c ;; Ok (VStr (s1 ++ s2))
-          else float_op fl_add a c
+          else float_op fl_add_r a c
       end
   | OSub =>
       match a, c with
       | VInt x, VInt y => Ok (VInt (wrap64 (x - y)))
-      | _, _ => float_op fl_sub a c
+      | _, _ => float_op fl_sub_r a c
       end
   | OMul =>
       match a, c with
       | VInt x, VInt y => Ok (VInt (wrap64 (x * y)))
-      | _, _ => float_op fl_mul a c
+      | _, _ => float_op fl_mul_r a c
       end
-  | ODiv => float_op fl_div a c
+  | ODiv => float_op fl_div_r a c
   | OMod =>
       match a, c with
       | VInt x, VInt y => if (y =? 0)%Z then Err e_divzero else Ok (VInt (wrap64 (Z.rem x y)))
